@@ -333,6 +333,9 @@ impl<const MQ: u64> GF255<MQ> {
     // ctl MUST be equal to 0 or 0xFFFFFFFF.
     #[inline]
     pub fn set_cond(&mut self, a: &Self, ctl: u32) {
+        // Barrier: prevent the compiler from turning the masking below
+        // into a conditional jump on the (possibly secret) control word.
+        let ctl = core::hint::black_box(ctl);
         for i in 0..8 {
             self.0[i] ^= ctl & (self.0[i] ^ a.0[i]);
         }
@@ -352,6 +355,9 @@ impl<const MQ: u64> GF255<MQ> {
     // ctl MUST be either 0x00000000 or 0xFFFFFFFF.
     #[inline]
     pub fn cswap(a: &mut Self, b: &mut Self, ctl: u32) {
+        // Barrier: prevent the compiler from turning the masking below
+        // into a conditional jump on the (possibly secret) control word.
+        let ctl = core::hint::black_box(ctl);
         for i in 0..8 {
             let t = ctl & (a.0[i] ^ b.0[i]);
             a.0[i] ^= t;
@@ -993,7 +999,7 @@ impl<const MQ: u64> GF255<MQ> {
             for _ in 0..15 {
                 let a_odd = (xa & 1).wrapping_neg();
                 let (_, cc) = subborrow_u32(xa, xb, 0);
-                let swap = a_odd & (cc as u32).wrapping_neg();
+                let swap = core::hint::black_box(a_odd & (cc as u32).wrapping_neg());
                 let t1 = swap & (xa ^ xb);
                 xa ^= t1;
                 xb ^= t1;
@@ -1044,7 +1050,7 @@ impl<const MQ: u64> GF255<MQ> {
         for _ in 0..28 {
             let a_odd = (xa & 1).wrapping_neg();
             let (_, cc) = subborrow_u32(xa, xb, 0);
-            let swap = a_odd & (cc as u32).wrapping_neg();
+            let swap = core::hint::black_box(a_odd & (cc as u32).wrapping_neg());
             let t1 = swap & (xa ^ xb);
             xa ^= t1;
             xb ^= t1;
@@ -1177,7 +1183,7 @@ impl<const MQ: u64> GF255<MQ> {
             for _ in 0..13 {
                 let a_odd = (xa & 1).wrapping_neg();
                 let (_, cc) = subborrow_u32(xa, xb, 0);
-                let swap = a_odd & (cc as u32).wrapping_neg();
+                let swap = core::hint::black_box(a_odd & (cc as u32).wrapping_neg());
                 ls ^= swap & ((xa & xb) >> 1);
                 let t1 = swap & (xa ^ xb);
                 xa ^= t1;
@@ -1207,7 +1213,7 @@ impl<const MQ: u64> GF255<MQ> {
             for _ in 0..2 {
                 let a_odd = (xa & 1).wrapping_neg();
                 let (_, cc) = subborrow_u32(xa, xb, 0);
-                let swap = a_odd & (cc as u32).wrapping_neg();
+                let swap = core::hint::black_box(a_odd & (cc as u32).wrapping_neg());
                 ls ^= swap & ((a0 & b0) >> 1);
                 let t1 = swap & (xa ^ xb);
                 xa ^= t1;
@@ -1252,7 +1258,7 @@ impl<const MQ: u64> GF255<MQ> {
         for _ in 0..28 {
             let a_odd = (xa & 1).wrapping_neg();
             let (_, cc) = subborrow_u32(xa, xb, 0);
-            let swap = a_odd & (cc as u32).wrapping_neg();
+            let swap = core::hint::black_box(a_odd & (cc as u32).wrapping_neg());
             ls ^= swap & ((xa & xb) >> 1);
             let t1 = swap & (xa ^ xb);
             xa ^= t1;
@@ -1534,13 +1540,15 @@ impl<const MQ: u64> GF255<MQ> {
         let (_, mut cc) = subborrow_u32(
             self.0[0], (MQ as u32).wrapping_neg(), 0);
         for i in 1..7 {
-            let (_, ee) = subborrow_u32(self.0[i], 0xFFFFFFFF, cc);
+            let (_, ee) = subborrow_u32(self.0[i], 0xFFFFFFFF,
+                core::hint::black_box(cc));
             cc = ee;
         }
-        let (_, cc) = subborrow_u32(self.0[7], 0x7FFFFFFF, cc);
+        let (_, cc) = subborrow_u32(self.0[7], 0x7FFFFFFF,
+            core::hint::black_box(cc));
 
         // Clear the value if not canonical.
-        let w = (cc as u32).wrapping_neg();
+        let w = core::hint::black_box((cc as u32).wrapping_neg());
         for i in 0..8 {
             self.0[i] &= w;
         }
